@@ -30,7 +30,14 @@ RULE = (
     "row, in query order, and raises ValueError when an internal face is included; cell_nodes = union over the "
     "cell's faces of the face's nodes (set algebra on the raw arrays) and, for Cartesian/simplex families, the node "
     "count per cell known by construction; divergence(1) = D^T and divergence(k) = kron(D^T, I_k) for k=2,3, "
-    "divergence(0) raises ValueError. Exact integer equality. Non-trivial = a grid with >= 2 cells and an internal "
+    "divergence(0) raises ValueError. "
+    "History class (20 %): the full oracle is evaluated on ONE grid object, the object is then modified in place "
+    "- fracture splitting of the intact Cartesian host and fracture grids by meshing.subdomains_to_mdg (the md-grid's "
+    "subdomains must be the very objects passed in), reversal of the orientation of all faces (g.cell_faces = "
+    "-g.cell_faces), replacement of the object's topology by that of one of its subgrids followed by the documented "
+    "tag updates, or moving the nodes + compute_geometry - and the full oracle is evaluated again against the object "
+    "as it stands (no stale derived data). "
+    "Exact integer equality. Non-trivial = a grid with >= 2 cells and an internal "
     "face, or any fractured md-grid; distinct = hash of spec."
 )
 BUDGET = {"quick": {"cases": 2000, "seconds": 40}, "thorough": {"cases": 120000, "seconds": 1200}}
@@ -40,24 +47,40 @@ LEVEL_TEXT = ("Exploration: thousands of generated grids per run (all grid famil
               "connectivity query of Grid is compared exactly with a dense reconstruction from the raw csc arrays of "
               "cell_faces / face_nodes.")
 LEVEL_NOTE = ("Grids of at most a few hundred cells. Fractured grids are Cartesian with lattice-aligned fractures "
-              "(gmsh-based fractured simplex grids are not generated). The diagonal of cell_connection_map is not "
+              "(gmsh-based fractured simplex grids are not generated). Histories do not include fracture propagation; "
+              "cell_diameters (lru_cache, not part of this property) is not queried. The diagonal of cell_connection_map is not "
               "constrained (docstring gives an 'if', not an 'iff'). Finds violations, does not prove absence.")
 DESIGN_REF = "DESIGN.md section 4, C21"
 ASSUMPTIONS = ["scipy csc storage (indptr/indices/data) is the trusted representation of the incidence",
                "boundary-face queries use distinct face indices"]
-REQUIRED = {"src-plain": 0.2, "src-frac": 0.2, "sub": 0.15, "dim1": 0.05, "dim2": 0.15, "dim3": 0.15,
+REQUIRED = {"src-plain": 0.2, "src-frac": 0.2, "src-hist": 0.1, "hist-split": 0.04, "hist-faces-split": 0.03,
+            "hist-flip": 0.01, "hist-shrink": 0.01, "hist-move": 0.01, "sub": 0.15, "dim1": 0.05, "dim2": 0.15, "dim3": 0.15,
             "gdim0": 0.02, "gdim1": 0.1, "has-fracture-faces": 0.1, "has-internal-faces": 0.3,
             "query-permuted": 0.2, "frac-dim3": 0.03}
 
 
 @st.composite
 def _spec(draw, tier):
-    src = draw(st.sampled_from(["plain", "frac"]))
+    src = draw(st.sampled_from(["plain", "plain", "frac", "frac", "hist"]))
     s = {"src": src}
     if src == "plain":
         s["grid"] = draw(grid_spec(gmsh=(tier == "thorough")))
-    else:
+    elif src == "frac":
         s["frac"] = draw(frac_spec())
+    else:
+        # history on ONE grid object: query -> modify the object in place -> query again
+        s["mode"] = draw(st.sampled_from(["split", "split", "flip", "shrink", "move"]))
+        if s["mode"] == "split":
+            s["frac"] = draw(frac_spec())
+        elif s["mode"] == "flip":
+            # (3-d faces store their nodes counter-clockwise w.r.t. the sign, so a pure sign flip is only valid in 1-d/2-d)
+            s["grid"] = draw(grid_spec(dims=(1, 2)))
+        else:
+            s["grid"] = draw(grid_spec())
+        s["cells"] = draw(st.lists(st.integers(0, 400), min_size=1, max_size=12))
+        s["qseed"] = draw(st.integers(0, 2**31 - 1))
+        s["sub"] = None
+        return s
     if draw(st.integers(0, 2)) == 0:
         s["sub"] = draw(st.lists(st.integers(0, 400), min_size=1, max_size=12))
     else:
@@ -204,12 +227,76 @@ def check_connectivity(g, qseed, labels, tagged_by_mdg=False, nodes_per_cell=Non
     return internal.size
 
 
+def _check_history(spec, labels):
+    """Query, modify the same grid object(s) in place with the library's own operations, query again."""
+    import porepy as pp
+    from porepy.fracs import structured
+
+    from ..gen.grids_extra import fracture_arrays
+
+    q = spec["qseed"]
+    mode = spec["mode"]
+    labels.add("hist-" + mode)
+    if mode == "split":
+        fs = spec["frac"]
+        labels.update(frac_labels(fs))
+        labels.add(f"dim{fs['dim']}")
+        make = structured._cart_grid_2d if fs["dim"] == 2 else structured._cart_grid_3d
+        grids = make(fracture_arrays(fs), np.array(fs["nx"]), physdims=np.array(fs["phys"], dtype=float))
+        objs = [g for lst in grids for g in lst]
+        for i, g in enumerate(objs):  # intact grids: tags as set by the constructors
+            check_connectivity(g, q + i, set(), nodes_per_cell=(2 ** g.dim if g.dim > 0 else None))
+        nf0 = [g.num_faces for g in objs]
+        mdg = pp.meshing.subdomains_to_mdg(grids)  # splits faces and nodes of the very same objects
+        sds = mdg.subdomains()
+        require(len(sds) == len(objs) and all(any(sd is g for g in objs) for sd in sds), "hist-same-objects",
+                "the subdomains of the md-grid are not the grid objects that were passed in")
+        if any(g.num_faces != n for g, n in zip(objs, nf0)):
+            labels.add("hist-faces-split")
+        for i, g in enumerate(objs):
+            check_connectivity(g, q + 50 + i, labels, tagged_by_mdg=True, nodes_per_cell=(2 ** g.dim if g.dim > 0 else None))
+        # geometry change on the same objects: topology queries are unaffected, and still consistent
+        for i, g in enumerate(objs):
+            if g.dim > 0:
+                g.nodes = g.nodes * 1.5 + 0.25
+                g.compute_geometry()
+                check_connectivity(g, q + 90 + i, set(), tagged_by_mdg=True, nodes_per_cell=2 ** g.dim)
+        return True
+    gs = spec["grid"]
+    g = build_grid(gs)
+    labels.update(grid_meta(gs)["labels"])
+    npc = _NODES_PER_CELL.get((gs["kind"], gs["dim"]))
+    nint = check_connectivity(g, q, set(), nodes_per_cell=npc)
+    if mode == "flip":
+        # the opposite orientation convention of every face: assign the attribute, as split_grid does
+        g.cell_faces = -g.cell_faces
+        g.compute_geometry()
+    elif mode == "move":
+        g.nodes = g.nodes * 2.0 - 0.5
+        g.compute_geometry()
+    else:  # shrink: the grid object takes over the topology of one of its subgrids, tags re-initialised
+        cells = sorted(cells_of(spec["cells"], g.num_cells))
+        h, _, _ = pp.partition.extract_subgrid(g, np.array(cells, dtype=int))
+        g.cell_faces, g.face_nodes, g.nodes = h.cell_faces, h.face_nodes, h.nodes
+        g.num_cells, g.num_faces, g.num_nodes = h.num_cells, h.num_faces, h.num_nodes
+        g.initiate_face_tags()
+        g.update_boundary_face_tag()
+        g.initiate_node_tags()
+        g.update_boundary_node_tag()
+        g.compute_geometry()
+    check_connectivity(g, q + 1, labels, nodes_per_cell=npc)
+    return g.num_cells >= 2 and nint > 0
+
+
 def check(spec):
     import porepy as pp
 
     labels = set()
     labels.add("src-" + spec["src"])
     nontrivial = False
+    if spec["src"] == "hist":
+        nontrivial = _check_history(spec, labels)
+        return {"labels": sorted(labels), "nontrivial": bool(nontrivial)}
     if spec["src"] == "plain":
         gs = spec["grid"]
         g = build_grid(gs)
